@@ -148,7 +148,10 @@ func loadKnown(path string) []knownEntry {
 	var out []knownEntry
 	b, err := os.ReadFile(path)
 	if err != nil {
-		return nil
+		// the list of known findings is part of the check: without it a
+		// known finding would be reported as a new violation
+		fmt.Fprintf(os.Stderr, "cannot read %s: %v\n", path, err)
+		os.Exit(2)
 	}
 	for _, l := range strings.Split(string(b), "\n") {
 		l = strings.TrimSpace(l)
@@ -958,6 +961,9 @@ func parentMain(e *Engine, tier string, seed uint64, workers, runsOverride, secs
 		if v == 0 {
 			fmt.Fprintf(os.Stderr, "warning: probe %s stuck at zero\n", k)
 		}
+	}
+	if e.Assume == nil {
+		e.Assume = []string{}
 	}
 	ev := evidence{PropertyID: e.ID, Tier: tier, Seed: seed, Level: e.Level, Coverage: cov, Assumptions: e.Assume, WallS: wall, Violations: violations}
 	if ev.Level == "" {
